@@ -13,6 +13,8 @@ import (
 	"fmt"
 	"hash/fnv"
 	"net"
+	"os"
+	"path/filepath"
 	"regexp"
 	"strings"
 	"sync"
@@ -144,7 +146,19 @@ func runC07Case(r *ev.Run, c c07Case) {
 		defer fallbackMu.Unlock()
 		listenAddr = ip + ":25"
 	}
-	ln, err := net.Listen("tcp", listenAddr)
+	network, hostArg, tlsName := "tcp", c.Host, c.Host
+	if c.Host == "unix" {
+		// a UNIX domain socket ("unix:///path" as host): no localhost name, the TLS policy holds as for every other host
+		dir, derr := os.MkdirTemp("", "verif-c07-")
+		if derr != nil {
+			r.HarnessError("mkdtemp: " + derr.Error())
+			return
+		}
+		defer os.RemoveAll(dir)
+		network, listenAddr = "unix", filepath.Join(dir, "smtp.sock")
+		hostArg, tlsName = "unix://"+listenAddr, "localhost"
+	}
+	ln, err := net.Listen(network, listenAddr)
 	if err != nil {
 		if c.Policy == "implicit-fallback" {
 			r.Count("fallback_port_25_unavailable", 1)
@@ -153,7 +167,10 @@ func runC07Case(r *ev.Run, c c07Case) {
 		r.HarnessError("listen: " + err.Error())
 		return
 	}
-	port := ln.Addr().(*net.TCPAddr).Port
+	port := 25
+	if ta, ok := ln.Addr().(*net.TCPAddr); ok {
+		port = ta.Port
+	}
 	sessCh := make(chan *refsmtp.Session, 1)
 	go func() {
 		conn, err := ln.Accept()
@@ -169,7 +186,7 @@ func runC07Case(r *ev.Run, c c07Case) {
 		}
 	}()
 	opts := []mail.Option{mail.WithPort(port), mail.WithTimeout(3 * time.Second), mail.WithHELO("client.verif.example"),
-		mail.WithTLSConfig(gen.ClientTLS(c.Host, 0, 0)), mail.WithUsername(user), mail.WithPassword(pass)}
+		mail.WithTLSConfig(gen.ClientTLS(tlsName, 0, 0)), mail.WithUsername(user), mail.WithPassword(pass)}
 	switch c.Policy {
 	case "mandatory":
 		opts = append(opts, mail.WithTLSPolicy(mail.TLSMandatory))
@@ -204,7 +221,7 @@ func runC07Case(r *ev.Run, c c07Case) {
 	} else {
 		opts = append(opts, mail.WithSMTPAuth(mail.SMTPAuthType(c.AuthType)))
 	}
-	cl, err := mail.NewClient(c.Host, opts...)
+	cl, err := mail.NewClient(hostArg, opts...)
 	if err != nil {
 		_ = ln.Close()
 		r.HarnessError("C07 NewClient: " + err.Error())
@@ -257,6 +274,9 @@ func runC07Case(r *ev.Run, c c07Case) {
 		<-sess.Done
 	}
 	r.Count("sessions", 1)
+	if c.Host == "unix" {
+		r.Count("sessions_over_a_unix_domain_socket", 1)
+	}
 	clear := sess.Clear()
 	if strings.HasPrefix(c.Policy, "implicit") {
 		clear = nil
@@ -598,7 +618,7 @@ func runC07Shared(r *ev.Run, c c07SharedCase) {
 
 func runC07(r *ev.Run, rep *ev.ReplayDoc) ev.Summary {
 	sum := ev.Summary{
-		Rule: "matrix policy {mandatory, opportunistic, none, implicit (WithSSL; also WithSSLPort / SetSSLPort after an explicit WithPort, WithSSL followed by the STARTTLS policy NoTLS, and the fixed fallback port), a password-revealing custom smtp.Auth configured first and replaced by an auth type (option order, setter order), QuickSend (opportunistic TLS and auto-discovery chosen by the library; the harness CA is the process's system root store)} x auth type (all 13; custom = a harness mechanism without password) x host {localhost, 127.0.0.1, 127.0.0.2 (a non-localhost name reachable on loopback; certificate SANs cover all three)} x server behaviour {STARTTLS advertised or not; STARTTLS reply 220 / 454 / 502 / garbage; handshake ok / wrong-name certificate / untrusted certificate / garbage bytes} x 4 advertised AUTH lists, over real loopback TCP with the library's own dialers (tls.Dialer for implicit TLS). thorough enumerates the full matrix (minus combinations that cannot differ), quick a deterministic covering subset. The tap below the TLS layer records every byte before the first TLS record. Plus sequences on one live Client: dial under NoTLS / opportunistic, SetTLSPolicy(TLSMandatory), dial again (with and without Close in between), send; and one *tls.Config without ServerName shared by two Clients for different hosts whose servers both present the certificate of the first host. distinct by case",
+		Rule: "matrix policy {mandatory, opportunistic, none, implicit (WithSSL; also WithSSLPort / SetSSLPort after an explicit WithPort, WithSSL followed by the STARTTLS policy NoTLS, and the fixed fallback port), a password-revealing custom smtp.Auth configured first and replaced by an auth type (option order, setter order), QuickSend (opportunistic TLS and auto-discovery chosen by the library; the harness CA is the process's system root store)} x auth type (all 13; custom = a harness mechanism without password) x host {localhost, 127.0.0.1, 127.0.0.2 (a non-localhost name reachable on loopback; certificate SANs cover all three), a UNIX domain socket (unix:///path; no localhost name either)} x server behaviour {STARTTLS advertised or not; STARTTLS reply 220 / 454 / 502 / garbage; handshake ok / wrong-name certificate / untrusted certificate / garbage bytes} x 4 advertised AUTH lists, over real loopback TCP with the library's own dialers (tls.Dialer for implicit TLS). thorough enumerates the full matrix (minus combinations that cannot differ), quick a deterministic covering subset. The tap below the TLS layer records every byte before the first TLS record. Plus sequences on one live Client: dial under NoTLS / opportunistic, SetTLSPolicy(TLSMandatory), dial again (with and without Close in between), send; and one *tls.Config without ServerName shared by two Clients for different hosts whose servers both present the certificate of the first host. distinct by case",
 		Assumptions: []string{
 			"'localhost names' are localhost, 127.0.0.1, ::1; 127.0.0.2 stands for any other host",
 			"credentials are unique 16-18 character random strings; searched raw, base64 (3 alphabets), hex, and inside every base64 token of the cleartext",
@@ -633,7 +653,7 @@ func runC07(r *ev.Run, rep *ev.ReplayDoc) ev.Summary {
 	n := 0
 	for _, pol := range []string{"mandatory", "opportunistic", "none", "implicit"} {
 		for _, at := range c07AuthTypes {
-			for _, host := range []string{"localhost", "127.0.0.1", "127.0.0.2"} {
+			for _, host := range []string{"localhost", "127.0.0.1", "127.0.0.2", "unix"} {
 				for _, al := range c07AuthLists {
 					type beh struct {
 						st        bool
